@@ -253,6 +253,99 @@ pub fn mutants(b: &Base, uri_bytes: &[u8], reduced: bool) -> Vec<Mutant> {
         x.body.extend_from_slice(extra);
         push(format!("body-append-{:?}", extra), x);
     }
+    // whole-element edits of the query string, the path and a form body: an element repeated (next to
+    // itself, at the end, in another spelling), dropped, or emptied -- the multiset of what is signed changes
+    {
+        let (path, query) = match w.uri.split_once('?') {
+            Some((p, q)) => (p.to_string(), Some(q.to_string())),
+            None => (w.uri.clone(), None),
+        };
+        let respell = |e: &str| -> String {
+            // first byte of the value (or of the name) written as an escape
+            let (n, v) = match e.split_once('=') {
+                Some((n, v)) => (n.to_string(), Some(v.to_string())),
+                None => (e.to_string(), None),
+            };
+            let esc = |t: &str| -> String {
+                let b = t.as_bytes();
+                if b.is_empty() || b[0] == b'%' || b[0] == b'+' {
+                    t.to_string()
+                } else {
+                    format!("%{:02X}{}", b[0], &t[1..])
+                }
+            };
+            match v {
+                Some(v) if !v.is_empty() => format!("{}={}", n, esc(&v)),
+                Some(v) => format!("{}={}", esc(&n), v),
+                None => esc(&n),
+            }
+        };
+        let element_edits = |elems: &[String]| -> Vec<(String, Vec<String>)> {
+            let mut r = Vec::new();
+            for (i, e) in elems.iter().enumerate() {
+                let mut v = elems.to_vec();
+                v.insert(i, e.clone());
+                r.push((format!("[{}]-repeated-adjacent", i), v));
+                let mut v = elems.to_vec();
+                v.push(e.clone());
+                r.push((format!("[{}]-repeated-at-end", i), v));
+                let mut v = elems.to_vec();
+                v.insert(0, respell(e));
+                r.push((format!("[{}]-repeated-respelled-first", i), v));
+                let mut v = elems.to_vec();
+                v.push(respell(e));
+                r.push((format!("[{}]-repeated-respelled-last", i), v));
+                let mut v = elems.to_vec();
+                v.remove(i);
+                r.push((format!("[{}]-dropped", i), v));
+                let mut v = elems.to_vec();
+                v[i] = String::new();
+                r.push((format!("[{}]-emptied", i), v));
+                let mut v = elems.to_vec();
+                v.insert(i, "=".to_string());
+                r.push((format!("[{}]-lone-equals-before", i), v));
+            }
+            r
+        };
+        if let Some(q) = &query {
+            let elems: Vec<String> = q.split('&').map(|x| x.to_string()).collect();
+            for (lbl, v) in element_edits(&elems) {
+                push(format!("query-element{}", lbl), with_uri(w, format!("{}?{}", path, v.join("&"))));
+            }
+        } else {
+            push("query-added-lone-equals".into(), with_uri(w, format!("{}?=", path)));
+            push("query-added-pair".into(), with_uri(w, format!("{}?x=1", path)));
+        }
+        let segs: Vec<String> = path.split('/').skip(1).map(|x| x.to_string()).collect();
+        for (lbl, v) in element_edits(&segs) {
+            if lbl.contains("lone-equals") {
+                continue;
+            }
+            let np = format!("/{}", v.join("/"));
+            let nu = match &query {
+                Some(q) => format!("{}?{}", np, q),
+                None => np,
+            };
+            push(format!("path-segment{}", lbl), with_uri(w, nu));
+        }
+        let is_form = w.headers.iter().any(|(n, v)| n.eq_ignore_ascii_case("content-type") && v.starts_with(b"application/x-www-form-urlencoded"));
+        if is_form && !w.body.is_empty() {
+            if let Ok(bs) = String::from_utf8(w.body.clone()) {
+                let elems: Vec<String> = bs.split('&').map(|x| x.to_string()).collect();
+                for (lbl, v) in element_edits(&elems) {
+                    let mut x = w.clone();
+                    x.body = v.join("&").into_bytes();
+                    push(format!("form-element{}", lbl), x);
+                }
+                // a body element moved to the URL and back
+                if let Some(q) = &query {
+                    let mut x = w.clone();
+                    x.uri = format!("{}?{}&{}", path, q, elems[0]);
+                    push("form-element[0]-also-in-url".into(), x);
+                }
+            }
+        }
+    }
     drop(push);
 
     // structured re-signing mutations: change one plan component but keep the OLD signature
